@@ -5,6 +5,7 @@ import (
 	"fmt"
 	"io"
 	"io/ioutil"
+	"path"
 	"regexp"
 	"strconv"
 	"strings"
@@ -177,6 +178,34 @@ func genC16(r *h.Rand, tier string) []h.Case {
 		nops := 4 + r.Intn(12)
 		nret := 0
 		tags := []string{fmt.Sprintf("dev=%v", dev)}
+		if r.Chance(20) {
+			// a chain of header references two levels deep below a Parse'd text, nothing of it cached yet:
+			// Parse may cache none of it (not only not its own result)
+			e := exts[0]
+			mark += 3
+			cmd.Add(sx.L(sx.A("file"), sx.S("/a"+e), sx.A("ok"), sx.I(int64(mark-2)), sx.L(sx.S("/b")), sx.L(), sx.Bool(false)))
+			cmd.Add(sx.L(sx.A("file"), sx.S("/b"+e), sx.A("ok"), sx.I(int64(mark-1)), sx.L(sx.S("/d/c")), sx.L(), sx.Bool(false)))
+			cmd.Add(sx.L(sx.A("file"), sx.S("/d/c"+e), sx.A("ok"), sx.I(int64(mark)), sx.L(), sx.L(), sx.Bool(false)))
+			mark++
+			cmd.Add(sx.L(sx.A("parse"), sx.S("/p.jet"), sx.I(int64(mark)), sx.L(sx.S("/a")), sx.L(), sx.Bool(false)))
+			nret++
+			tags = append(tags, "deep-parse")
+		}
+		if r.Chance(20) && len(exts) > 1 {
+			// one base name with files under two extensions, asked for under the later one first
+			b := r.Pick(bases)
+			mark += 2
+			cmd.Add(sx.L(sx.A("file"), sx.S(b+exts[0]), sx.A("ok"), sx.I(int64(mark-1)), sx.L(), sx.L(), sx.Bool(false)))
+			cmd.Add(sx.L(sx.A("file"), sx.S(b+exts[1]), sx.A("ok"), sx.I(int64(mark)), sx.L(), sx.L(), sx.Bool(false)))
+			later := b + exts[1]
+			if exts[0] != "" && strings.HasSuffix(exts[1], exts[0]) {
+				later = b + strings.TrimSuffix(exts[1], exts[0]) // "/page.html" finds /page.html.jet
+			}
+			cmd.Add(sx.L(sx.A("get"), sx.S(later)))
+			cmd.Add(sx.L(sx.A("get"), sx.S(b)))
+			nret += 2
+			tags = append(tags, "two-extensions")
+		}
 		for k := 0; k < nops; k++ {
 			switch r.Intn(10) {
 			case 0, 1, 2, 3:
@@ -297,6 +326,14 @@ func init() {
 				var t *jet.Template
 				var err error
 				name := string(op.Xs[1].B)
+				// the request path and whether something is remembered under it (before the call)
+				resolved := path.Join("/", name)
+				if path.IsAbs(name) {
+					resolved = path.Clean(name)
+				}
+				cache.mu.Lock()
+				_, remembered := cache.m[resolved]
+				cache.mu.Unlock()
 				if op.Xs[0].A == "get" {
 					t, err = set.GetTemplate(name)
 				} else {
@@ -322,6 +359,22 @@ func init() {
 					// makes the lookup fail, it is never skipped in favour of a later candidate
 					if e[0] == 'O' && ld.fault[e[2:]] != "" && fail == "" {
 						fail = "the lookup of " + strconv.Quote(name) + " succeeded although opening " + e[2:] + " failed (" + ld.fault[e[2:]] + "): a fault was swallowed"
+					}
+				}
+				if op.Xs[0].A == "get" && !remembered {
+					// a name that is not remembered (or any name in development mode) is resolved by the extension
+					// order: the first candidate that exists in the loader now
+					want := ""
+					for _, e := range exts {
+						_, ok1 := ld.files[resolved+e]
+						_, ok2 := ld.fault[resolved+e]
+						if ok1 || ok2 {
+							want = resolved + e
+							break
+						}
+					}
+					if t.Name != want && fail == "" {
+						fail = "GetTemplate(" + strconv.Quote(name) + "), a name not asked for before, returned the template of " + t.Name + "; the first existing candidate in extension order is " + want
 					}
 				}
 				if op.Xs[0].A == "get" && !dev && lastGet == name {
